@@ -286,4 +286,102 @@ theorem gkRow128_spec (hwf : ∀ j (h : j < moduli.length), moduli[j].WF) (hi : 
 
 end rows
 
+/-! ### the stage (≤ 64-bit and ≤ 128-bit paths) -/
+
+/-- the three-way selection, for bit counts up to 128: every coefficient that fits the selected path ends up as c_i mod q_j at i + j·N -/
+theorem gkStage_small_spec {moduli : List Modulus} (hwf : ∀ j (h : j < moduli.length), moduli[j].WF) {cc n bits : Nat} (hn : n ≤ cc)
+    (hsz : cc * moduli.length < 2^64) {rc : List Int} (hrc : n ≤ rc.length) (hb : bits ≤ 128)
+    (h64 : bits ≤ 64 → ∀ i (h : i < rc.length), i < n → rc[i].natAbs < 2^64)
+    (h128 : ∀ i (h : i < rc.length), i < n → rc[i].natAbs < 2^128)
+    (decompose : List Nat → R (List Nat)) (d : List Nat) (hd : d.length = cc * moduli.length) :
+    ∃ d', gkStage bits n moduli cc rc decompose d = .ok d' ∧ d'.length = cc * moduli.length ∧
+      (∀ i j (hi : i < rc.length) (hj : j < moduli.length), i < n → d'[i + j * cc]? = some (c12_res rc[i] moduli[j].value)) ∧
+      (∀ p, n ≤ p % cc → d'[p]? = d[p]?) := by
+  have conv : ∀ i j (hi : i < rc.length) (hj : j < moduli.length),
+      c12_res (rc.getD i 0) (moduli.getD j default).value = c12_res rc[i] moduli[j].value := by
+    intro i j hi hj; rw [gk_getD_mod hj]; simp [List.getD, List.getElem?_eq_getElem hi]
+  unfold gkStage
+  by_cases hs : bits ≤ 64
+  · rw [if_pos hs]
+    obtain ⟨d', e, hl, h1, h2⟩ := gk_rows_spec (cc := cc) (k := moduli.length) (n := n)
+      (fun i j => c12_res (rc.getD i 0) (moduli.getD j default).value) (gkRow64 moduli cc rc) d
+      (by
+        intro i d1 hi hd1
+        have hir : i < rc.length := by omega
+        obtain ⟨d2, e2, hl2, r1, r2⟩ := gkRow64_spec hwf (by omega : i < cc) hsz hir (h64 hs i hir hi) d1 hd1
+        exact ⟨d2, e2, hl2, fun j hj => by rw [r1 j hj, conv i j hir hj], r2⟩) hn hd
+    exact ⟨d', e, hl, fun i j hi hj hin => by rw [h1 i j hin hj, conv i j hi hj], h2⟩
+  · rw [if_neg hs, if_pos hb]
+    obtain ⟨d', e, hl, h1, h2⟩ := gk_rows_spec (cc := cc) (k := moduli.length) (n := n)
+      (fun i j => c12_res (rc.getD i 0) (moduli.getD j default).value) (gkRow128 moduli cc rc) d
+      (by
+        intro i d1 hi hd1
+        have hir : i < rc.length := by omega
+        obtain ⟨d2, e2, hl2, r1, r2⟩ := gkRow128_spec hwf (by omega : i < cc) hsz hir (h128 i hir hi) d1 hd1
+        exact ⟨d2, e2, hl2, fun j hj => by rw [r1 j hj, conv i j hir hj], r2⟩) hn hd
+    exact ⟨d', e, hl, fun i j hi hj hin => by rw [h1 i j hin hj, conv i j hi hj], h2⟩
+
+theorem gk_satAdd_small {mb : Nat} (h : mb + 1 ≤ 128) : satAdd mb 1 = mb + 1 := by
+  unfold satAdd; rw [if_pos (by rw [B64_eq]; omega)]
+
+theorem gk_resizeL_length (l : List Nat) (n : Nat) : (resizeL l n).length = n := by
+  unfold resizeL; simp; omega
+
+theorem gk_mag_lt {c : Int} {b mb e : Nat} (hc : c.natAbs ≤ 2^b) (hb : b ≤ mb) (he : mb + 1 ≤ e) : c.natAbs < 2^e := by
+  have h1 : 2^b ≤ 2^mb := Nat.pow_le_pow_right (by norm_num) hb
+  have h2 : 2^mb < 2^e := Nat.pow_lt_pow_right (by norm_num) (by omega)
+  omega
+
+theorem gk_base_q {b : RNSBase} {j : Nat} (hj : j < b.base.toList.length) : b.base.toList[j] = b.q j := by
+  have hj' : j < b.base.size := by simpa using hj
+  simp [RNSBase.q, Array.getD, hj']
+
+/-- INTEGER STAGE of the generated `encode_internal_c64_array`, ≤ 64-bit and ≤ 128-bit paths (the multi-word path is not covered: `_partial`).
+    For a well-formed RNS base (moduli = its list), N = 2·slots coefficients, per-coefficient bit data `cb` with |c_i| ≤ 2^cb[i], scanned bit
+    count mb + 1 below the total bit count and ≤ 128: the function computes, for EVERY coefficient, exactly the model's
+    `Ckks.coeffToRns base (mb + 1) c_i` (the model's dispatch at the bit count the scan over ALL coefficients gives) laid out at i + j·N
+    — i.e. c_i mod q_j, negatives included — and hands that buffer to `ntt_p`. -/
+theorem gk_c64_array_integer_stage_partial {b : RNSBase} (hb : b.WF) {cc slots nvalues total_bits mb : Nat}
+    (hcc : slots * 2 = cc) (hsz : cc * b.base.toList.length < 2^64) (hv : nvalues ≤ slots)
+    {cb : List Nat} {rc : List Int} (hcb : cb.length = cc) (hrc : rc.length = cc)
+    (hmag : ∀ i (h1 : i < cb.length) (h2 : i < rc.length), rc[i].natAbs ≤ 2^cb[i])
+    (hm : maxAll cb = .ok mb) (hfit : mb + 1 < total_bits) (hsmall : mb + 1 ≤ 128)
+    (decompose : List Nat → R (List Nat)) (nttP : List Nat → Nat → R (List Nat)) (dest : List Nat) :
+    ∃ d', d'.length = cc * b.size ∧
+      (∀ i (hi : i < rc.length), ∃ rs, coeffToRns b (mb + 1) rc[i] = .ok rs ∧ rs.size = b.size ∧
+         ∀ j, j < b.size → d'[i + j * cc]? = some (rs.getD j 0) ∧ rs.getD j 0 = c12_res rc[i] (b.q j).value) ∧
+      encode_internal_c64_array true true nvalues slots true total_bits b.base.toList cc b.base.toList.length cb rc decompose nttP dest
+        = nttP d' cc := by
+  have hk : b.base.toList.length = b.size := by simp [RNSBase.size]
+  have hne : cb ≠ [] := by intro h; rw [h] at hm; simp [maxAll] at hm
+  obtain ⟨mb', hm', hbound⟩ := gk_maxAll_spec hne
+  have : mb' = mb := by rw [hm] at hm'; exact (Except.ok.inj hm').symm
+  subst this
+  have hwf : ∀ j (h : j < b.base.toList.length), b.base.toList[j].WF := by
+    intro j h; rw [gk_base_q h]; exact hb.mwf j (by omega)
+  have hlt : ∀ e, mb' + 1 ≤ e → ∀ i (h : i < rc.length), rc[i].natAbs < 2^e := by
+    intro e he i h
+    exact gk_mag_lt (hmag i (by omega) h) (hbound i (by omega)) he
+  have hpos := hb.pos
+  subst hcc
+  have hcc64 : slots * 2 < 2^64 := by
+    have : slots * 2 ≤ slots * 2 * b.base.toList.length := Nat.le_mul_of_pos_right _ (by omega)
+    omega
+  obtain ⟨d', e, hl, hcont, _⟩ := gkStage_small_spec hwf (n := slots * 2) (cc := slots * 2) (bits := mb' + 1) (Nat.le_refl _) hsz
+    (rc := rc) (by omega) hsmall (fun hs i h _ => hlt 64 hs i h) (fun i h _ => hlt 128 hsmall i h) decompose
+    (resizeL dest (slots * 2 * b.base.toList.length)) (gk_resizeL_length _ _)
+  refine ⟨d', by rw [hl, hk], ?_, ?_⟩
+  · intro i hi
+    obtain ⟨rs, e1, e2, e3⟩ := coeffToRns_spec hb (bits := mb' + 1) (c := rc[i]) (fun h => hlt 64 h i hi)
+      (fun _ h => hlt 128 h i hi) (fun h => absurd hsmall (by omega))
+    refine ⟨rs, e1, e2, fun j hj => ⟨?_, e3 j hj⟩⟩
+    have hj' : j < b.base.toList.length := by omega
+    rw [hcont i j hi hj' (by omega), e3 j hj, gk_base_q hj']
+  · rw [gk_c64_array_unfold]
+    have h1 : ¬ nvalues > slots := by omega
+    have h2 : ¬ mb' + 1 ≥ total_bits := by omega
+    simp only [not_true_eq_false, if_false, h1, gk_ckMul_ok hcc64, gk_ckMul_ok hsz, hm, bind, Except.bind, gk_satAdd_small hsmall, h2,
+      gkStageRaw_eq, e, ne_eq, not_true_eq_false, if_false]
+    cases nttP d' (slots * 2) <;> rfl
+
 end HC
